@@ -181,7 +181,7 @@ proof fn lemma_nothing_lost_refl(m: Map<[u8; 32], PeerLockRequest>, q: Seq<[u8; 
                     let ghost q_mid = peer_queue@;
 //@ insert before-stmt "if let Some(room) = lock_request.rooms.pop_back() {"
                         let ghost rooms_before = lock_request.rooms@;
-//@ insert before-stmt "if locked.contains(&room)"
+//@ insert after-text "if let Some(room) = lock_request.rooms.pop_back() {"
                             proof {
                                 lemma_rotate_keeps(rooms_before);
                                 assert(lock_request.rooms@ == rooms_before.drop_last());
